@@ -73,6 +73,14 @@ pub fn exh3(order: &[u32], threads: u32, rep: &mut Report) {
             if fns[t].eval(assignment(3, s)) != ((t >> s) & 1 == 1) {
                 rep.viol("C09/eval-vs-membership", format!("family {t:02x}: eval(set {s:03b}) disagrees with membership"), json!({"ctx": ctx, "family": t, "set": s}));
             }
+            // the general form of the argument list: a default valuation (here the opposite
+            // value for every variable) followed by overrides; documented: the last value counts
+            let mut over = assignment(3, !s & 7);
+            over.extend(assignment(3, s));
+            rep.evaluations += 1;
+            if fns[t].eval(over) != ((t >> s) & 1 == 1) {
+                rep.viol("C09/eval-vs-membership", format!("family {t:02x}: eval(set {s:03b}) disagrees with membership when every variable is first given the opposite value (the last value counts)"), json!({"ctx": ctx, "family": t, "set": s, "overrides": true}));
+            }
         }
     }
     let pos: Vec<usize> = (0..3u32).map(|v| order.iter().position(|&x| x == v).unwrap()).collect();
